@@ -521,6 +521,25 @@ def check_getvector_dtype(run, rule='R11d'):
     reach = cfg.reachable()
     v = f.params[0]
     n = 0
+    # container form by enclosing if/elif arm (rebinding v inside the arm, e.g. v = v.flatten(), keeps the form)
+    form_of = {}
+
+    def mark(stmts, form):
+        for st in stmts:
+            for y in ast.walk(st):
+                form_of[id(y)] = form
+    for y in own_walk(f.node):
+        if isinstance(y, ast.If):
+            node_if = y
+            while True:
+                if matches('isinstance(%s, np.ndarray)' % v, node_if.test) is not None:
+                    mark(node_if.body, 'ndarray')
+                elif matches('isinstance(%s, (list, tuple))' % v, node_if.test) is not None:
+                    mark(node_if.body, 'list')
+                if len(node_if.orelse) == 1 and isinstance(node_if.orelse[0], ast.If):
+                    node_if = node_if.orelse[0]
+                else:
+                    break
     for node in cfg.nodes:
         if node.id not in reach:
             continue
@@ -537,13 +556,7 @@ def check_getvector_dtype(run, rule='R11d'):
                     continue
                 n += 1
                 fs = facts.get(node.id, frozenset())
-                form = None
-                for fc in fs:
-                    t, pol = fc[2].ast, fc[1]
-                    if pol and matches('isinstance(%s, np.ndarray)' % v, t) is not None:
-                        form = 'ndarray'
-                    if pol and matches('isinstance(%s, (list, tuple))' % v, t) is not None:
-                        form = 'list'
+                form = form_of.get(id(x))
                 defs = [d for (nm, d) in IN.get(node.id, ()) if nm == dt.id]
                 ok = False
                 for d in defs:
@@ -569,5 +582,5 @@ def check_getvector_dtype(run, rule='R11d'):
                                   'this point is made under a symbol test that applies to a %s (%s): an array of SymPy '
                                   'expressions is cast to float and raises TypeError'
                                   % (form, dt.id, dt.id, form, "v.dtype.kind == 'O'" if form == 'ndarray' else 'issymbol(v)'), f=f, node=x)
-    if n < 4:
+    if n < 6:
         run.error('R11d: only %d dtype conversions recognised in getvector (expected >= 4)' % n)
